@@ -59,8 +59,8 @@ ASSUMPTIONS = [
     "BalancedIncrementalQuantileFilter",
 ]
 PROFILE = {
-    "quick": dict(examples=260, shards=16, budget_s=100),
-    "thorough": dict(examples=9000, shards=16, budget_s=1100),
+    "quick": dict(examples=500, shards=16, budget_s=110),
+    "thorough": dict(examples=15000, shards=16, budget_s=1100),
 }
 
 
